@@ -40,14 +40,17 @@ Err(kind, row) == [status |-> "error", kind |-> kind, row |-> row]
 
 RowLevelErrors == {"notype", "audit_name", "calc_missing", "unmatched_end", "noname", "badname",
                    "list_missing", "other_filter", "tl_filter", "tl_mismatch"}
-IdentErrors == {"unclosed", "dup_sibling", "dup_section", "section_is_form", "unknown_type", "nolabel"}
+IdentErrors == {"unclosed", "dup_sibling", "dup_section", "section_is_form", "unknown_type", "nolabel", "bad_ref"}
 KindErrors == {"no_choices"}
 
 CurPath == IF Len(stack) = 0 THEN <<>> ELSE stack[Len(stack)].path
 
 Node(p, kind, gen, row, type, hc, lh, lname, attrs) ==
   [p |-> p, kind |-> kind, gen |-> gen, row |-> row, type |-> type, hc |-> hc, lh |-> lh, lname |-> lname,
-   attrs |-> attrs]
+   attrs |-> attrs, refs |-> <<>>]
+\* a node created from a user row also remembers the names its cells reference with ${...}  (C03)
+UNode(p, kind, gen, row, type, hc, lh, lname, attrs, refs) ==
+  [Node(p, kind, gen, row, type, hc, lh, lname, attrs) EXCEPT !.refs = refs]
 
 \* Body-control attributes: a sequence of <<name, value, literal?>> triples.  `cattrs` of a row is what its
 \* appearance / body:: / parameters cells dictate (alpha); the type table adds the media type.
@@ -109,9 +112,9 @@ RowBegin(r) ==                                  \* l.824-950
      IN /\ nodes' = nodes
                \o (IF cnt THEN <<Node(Append(parent, nm \o "_count"), "q", "count", rowno, "calculate",
                                       FALSE, FALSE, r.lname \o "_count", <<>>)>> ELSE <<>>)
-               \o <<Node(p, r.ct, "", rowno, r.ct, TRUE, r.lh, r.lname,
+               \o <<UNode(p, r.ct, "", rowno, r.ct, TRUE, r.lh, r.lname,
                          LET a1 == IF r.tl THEN SetAttr(r.cattrs, "appearance", r.tlapp) ELSE r.cattrs
-                         IN IF cnt THEN SetRef(a1, "jr:count") ELSE a1)>>      \* l.901: redirected to the helper node
+                         IN IF cnt THEN SetRef(a1, "jr:count") ELSE a1, r.refs)>>      \* l.901: redirected to the helper node
                \o (IF tlab THEN <<Node(Append(p, "generated_table_list_label_" \o ToString(rowno)), "q",
                                        "tl_label", rowno, "note", TRUE, TRUE,
                                        "generated_table_list_label_" \o ToString(rowno), <<>>)>> ELSE <<>>)
@@ -136,8 +139,9 @@ RowSelect(r) ==                                 \* l.956-1188
                \o (IF hdr THEN <<Node(Append(parent, hname), "q", "tl_header", rowno, r.type, TRUE, TRUE, hname,
                                       <<<<"appearance", "label", TRUE>>>>)>>
                    ELSE <<>>)
-               \o <<Node(Append(parent, r.name), "q", "", rowno, r.type, HasControl(r), r.lh \/ r.media, r.lname,
-                         IF tableList # "none" THEN SetAttr(r.cattrs, "appearance", "list-nolabel") ELSE r.cattrs)>>   \* l.1180
+               \o <<UNode(Append(parent, r.name), "q", "", rowno, r.type, HasControl(r), r.lh \/ r.media, r.lname,
+                         IF tableList # "none" THEN SetAttr(r.cattrs, "appearance", "list-nolabel") ELSE r.cattrs,
+                         r.refs)>>   \* l.1180
                \o (IF r.other THEN <<Node(Append(parent, r.name \o "_other"), "q", "other", rowno, "text",
                                           TRUE, TRUE, r.lname \o "_other", <<>>)>> ELSE <<>>)
         /\ tableList' = IF hdr THEN r.list ELSE tableList
@@ -147,9 +151,9 @@ RowQuestion(r) ==                               \* l.752-760, 798-817, 1190-1374
   /\ outcome.status = "open" /\ r.k = "q"
   /\ IF r.type = "calculate" /\ ~r.hascalc /\ r.dyn \in {"none", "static"} THEN Fail("calc_missing")
      ELSE IF NameErr(r) # "" THEN Fail(NameErr(r))
-     ELSE /\ nodes' = Append(nodes, Node(Append(CurPath, EffName(r)), "q", IF r.hasname THEN "" ELSE "note",
+     ELSE /\ nodes' = Append(nodes, UNode(Append(CurPath, EffName(r)), "q", IF r.hasname THEN "" ELSE "note",
                                          rowno, r.type, HasControl(r), r.lh \/ r.media, EffLname(r),
-                                         WithMedia(r.type, r.cattrs)))
+                                         WithMedia(r.type, r.cattrs), r.refs))
           /\ Adv(r) /\ UNCHANGED <<cfgv, stack, tableList, meta, outcome>>
 
 RowStep(r) == \/ RowSkip(r) \/ RowNoType(r) \/ RowAudit(r) \/ RowEnd(r)
@@ -175,11 +179,16 @@ SectionIsForm(ns) == \E i \in 1..Len(ns) : IsSection(ns[i]) /\ Last(ns[i].p) = c
 UnknownType(ns) == \E i \in 1..Len(ns) : ns[i].kind = "q" /\ ns[i].gen \notin {"meta"} /\ ~TypeKnown(ns[i].type)
 NoLabel(ns) == \E i \in 1..Len(ns) : ns[i].kind = "q" /\ ns[i].hc /\ ~ns[i].lh /\ TypeKnown(ns[i].type)
 
+\* a ${name} that names no element, or more than one, cannot be resolved  (survey.py _var_repl_function)
+NameCount(ns, x) == Cardinality({i \in 1..Len(ns) : Last(ns[i].p) = x})
+BadRef(ns) == \E i \in 1..Len(ns) : \E k \in 1..Len(ns[i].refs) : NameCount(ns, ns[i].refs[k]) # 1
+
 TreeError(ns) == IF UnknownType(ns) THEN "unknown_type"
                  ELSE IF DupSibling(ns) THEN "dup_sibling"
                  ELSE IF SectionIsForm(ns) THEN "section_is_form"
                  ELSE IF DupSection(ns) THEN "dup_section"
                  ELSE IF NoLabel(ns) THEN "nolabel"
+                 ELSE IF BadRef(ns) THEN "bad_ref"
                  ELSE ""
 
 Finish ==
